@@ -1,5 +1,6 @@
 import OrdModel.Proofs.IndexInsnumDedup
 import OrdModel.Proofs.IndexLiftInsTabs
+import OrdModel.Proofs.IndexLiftProvenanceSeq
 /-
 C07 — parent/child provenance cannot be forged.
 Model: `linkParents` (the `for parent in parents` loop of `update_inscription_location`) and the
@@ -16,9 +17,20 @@ state of the full index model, with NO hypothesis on the chain (`Proofs/IndexLif
 any predicate on the inscription tables preserved by `update_inscription_location` holds after
 every chain): the latest-child tables (`c07_latest_child_reachable`: `coll2latest p` = max child
 of a visible parent, none for a hidden one; the two tables inverse) and the children table ⇔ the
-entries' parent lists, parents older than children (`c07_children_reachable`).  NOT proved: that
-every recorded parent was spent or revealed by the child's reveal transaction, as a statement
-about reachable states (it is `c07_retain_filter` at the filter, oracle `parents` on runs).
+entries' parent lists, parents older than children (`c07_children_reachable`).
+PROVENANCE on every reachable state (`Proofs/IndexLiftProvenance{,Tx,Chain,Seq}.lean`):
+`c07_provenance_reachable` — NO hypothesis on the chain — every children row `(p, c)` has a witness
+transaction in the chain (block, position, and the block context the model has just before it,
+computed from the chain prefix) that is the reveal transaction of `c` (id `(txid, j)`, `c` not
+existing before it) and such that the id of `p` is the id of an inscription listed on a UTXO entry
+of a non-null input of that transaction (cache or table, as they are just before it) or one of
+the ids the transaction reveals.  `c07_provenance_reachable_seq` — chains with pairwise distinct
+txids (C05's hypothesis) — the same with the parent's SEQUENCE NUMBER: `p` itself is listed on such
+an input, or `p` was created by (not before) that transaction, and `p < c`.  A duplicate-txid
+chain on which the sequence-number form fails (the id form holds) is evaluated at the end of the
+file.  The proof threads a relation `W parentId childId n` through `update_inscription_location`
+(children rows), the saved fee-spent flotsam (a new inscription paid as fee is created at the
+coinbase, with the parents filtered in ITS reveal transaction) and the scan + `retain` filter.
 -/
 namespace Ord.Index.C07
 open Ord.Index Ord.Index.Insnum Ord.Outcome
@@ -117,6 +129,66 @@ theorem c07_children_reachable (cfg : Cfg) (chain : List Block) (st : State) (ev
   rintro ⟨e, he, hp⟩
   exact j.ofParent c e he p hp
 
+/-- **Provenance on reachable states** (no hypothesis on the chain): after ANY chain the index
+model indexes successfully, for every row `(p, c)` of the children table (equivalently, by
+`c07_children_reachable`, every `p` in the parent list of entry `c`) there is a transaction `tx` in
+a block `b` of the chain — `chain = pre ++ b :: post`, `tx` at position `i` of `b`, indexed `k`-th
+in the updater's order `blockOrder` (coinbase last), from the block context `bc` the model reaches
+from the chain prefix `pre` and the `k` transactions before it — such that
+* `tx` is the reveal transaction of the child: the child's id is `(tx.txid, j)` with `j` below the
+  number of envelopes of `tx`, and the child's sequence number did not exist before `tx`;
+* the parent's id is the id of an inscription SPENT by `tx` — `tx` is not the block's first
+  transaction, and a non-null previous output of `tx` holds, in the block's UTXO cache or in the
+  UTXO table as they are just before `tx`, an entry listing a sequence number `q` whose inscription
+  entry has that id — or the id of an inscription REVEALED by `tx` (`(tx.txid, j')`, `j'` below the
+  number of envelopes);
+* the parent is older than the child.
+(`blockOrder`, `insOnOf`, `bc0A` are the names `Sched.indexUtxoEntries_eq` gives to the order, the
+inscription switch and the initial block context of the model's `indexUtxoEntries`.) -/
+theorem c07_provenance_reachable (cfg : Cfg) (chain : List Block) (st : State) (evs : List Event)
+    (h : run cfg chain = .ok (st, evs)) (p c : Nat) (hpc : (p, c) ∈ st.children) :
+    ∃ (ep ec : InsEntry), st.entries[p]? = some ep ∧ st.entries[c]? = some ec ∧ p < c ∧
+    ∃ (pre : List Block) (b : Block) (post : List Block) (k i : Nat) (tx : Tx) (bc : BlockCtx),
+      chain = pre ++ b :: post ∧ (Sched.blockOrder b)[k]? = some (i, tx) ∧
+      (∃ (st0 : State) (ev0 : List Event), run cfg pre = .ok (st0, ev0) ∧
+        indexTxs cfg b (Sched.insOnOf cfg b) ((Sched.blockOrder b).take k) (Sched.bc0A cfg st0 b) = .ok bc) ∧
+      Sched.insOnOf cfg b = true ∧ (∃ bc', indexTx cfg b (Sched.insOnOf cfg b) i tx bc = .ok bc') ∧
+      (ec.id.txid = tx.txid ∧ ec.id.index < tx.envelopes.length) ∧ bc.st.entries.length ≤ c ∧
+      ((i ≠ 0 ∧ ∃ inp ∈ tx.inputs, inp.prev.isNull = false ∧
+          ∃ e : UtxoEntry, ((inp.prev, e) ∈ bc.cache ∨ (inp.prev, e) ∈ bc.st.utxo) ∧
+            ∃ (q off : Nat) (en : InsEntry), (q, off) ∈ e.ins ∧ bc.st.entries[q]? = some en ∧ en.id = ep.id) ∨
+       (ep.id.txid = tx.txid ∧ ep.id.index < tx.envelopes.length)) := by
+  have i : InsLift.LInvT (tabs st) := InsLift.run_tabsP InsLift.linv_stable InsLift.linv_empty cfg chain st evs h
+  obtain ⟨ep, ec, h1, h2, pre, b, post, k, i', tx, bc, w1, w2, w3, w4, w5, w6, w7, w8⟩ :=
+    (Prov.run_pinv cfg chain st evs h).prov p c hpc
+  exact ⟨ep, ec, h1, h2, i.lt p c hpc, pre, b, post, k, i', tx, bc, w1, w2, w3, w4, w5, w6, w8, w7⟩
+
+/-- **Provenance on reachable states, sequence-number form**: if the txids of the chain are
+pairwise distinct (BIP 30; the hypothesis of C05, under which inscription ids are injective), the
+parent `p` ITSELF — not merely an inscription with the same id — is listed on a UTXO entry held at a
+non-null previous output of the child's reveal transaction just before that transaction, or `p`
+was created by that transaction (its id carries the transaction's txid and its sequence number did
+not exist before the transaction) with a smaller sequence number than the child.  Without the
+hypothesis only the id form `c07_provenance_reachable` holds (see the duplicate-txid example at
+the end of this file). -/
+theorem c07_provenance_reachable_seq (cfg : Cfg) (chain : List Block) (st : State) (evs : List Event)
+    (hnd : (Sched.chainTxids chain).Nodup)
+    (h : run cfg chain = .ok (st, evs)) (p c : Nat) (hpc : (p, c) ∈ st.children) :
+    ∃ (ep ec : InsEntry), st.entries[p]? = some ep ∧ st.entries[c]? = some ec ∧ p < c ∧
+    ∃ (pre : List Block) (b : Block) (post : List Block) (k i : Nat) (tx : Tx) (bc : BlockCtx),
+      chain = pre ++ b :: post ∧ (Sched.blockOrder b)[k]? = some (i, tx) ∧
+      (∃ (st0 : State) (ev0 : List Event), run cfg pre = .ok (st0, ev0) ∧
+        indexTxs cfg b (Sched.insOnOf cfg b) ((Sched.blockOrder b).take k) (Sched.bc0A cfg st0 b) = .ok bc) ∧
+      Sched.insOnOf cfg b = true ∧ (∃ bc', indexTx cfg b (Sched.insOnOf cfg b) i tx bc = .ok bc') ∧
+      (ec.id.txid = tx.txid ∧ ec.id.index < tx.envelopes.length) ∧ bc.st.entries.length ≤ c ∧
+      ((i ≠ 0 ∧ ∃ inp ∈ tx.inputs, inp.prev.isNull = false ∧
+          ∃ e : UtxoEntry, ((inp.prev, e) ∈ bc.cache ∨ (inp.prev, e) ∈ bc.st.utxo) ∧ ∃ off : Nat, (p, off) ∈ e.ins) ∨
+       ((ep.id.txid = tx.txid ∧ ep.id.index < tx.envelopes.length) ∧ bc.st.entries.length ≤ p)) := by
+  have i : InsLift.LInvT (tabs st) := InsLift.run_tabsP InsLift.linv_stable InsLift.linv_empty cfg chain st evs h
+  obtain ⟨ep, ec, h1, h2, pre, b, post, k, i', tx, bc, w1, w2, w3, w4, w5, w6, w7, w8⟩ :=
+    Prov.run_provenance_seq cfg chain st evs hnd h p c hpc
+  exact ⟨ep, ec, h1, h2, i.lt p c hpc, pre, b, post, k, i', tx, bc, w1, w2, w3, w4, w5, w6, w7, w8⟩
+
 example : dedupParents [⟨7, 0⟩, ⟨8, 0⟩] [⟨7, 0⟩, ⟨9, 0⟩, ⟨7, 0⟩, ⟨8, 0⟩] = [⟨7, 0⟩, ⟨8, 0⟩] := by decide
 
 /-! non-vacuity: a parent known to the table is linked, an unknown one is not -/
@@ -147,5 +219,63 @@ def pcTables (r : Outcome (State × List Event)) : Option (List (Nat × Nat) × 
   | _ => none
 
 example : pcTables (run pcCfg [pcB0, pcB1, pcB2]) = some ([(0, 1)], [(0, 1)], [(1, 0)]) := by decide
+
+/-! non-vacuity of the provenance theorems on the same chain: the run succeeds, the children row
+`(0, 1)` exists, the chain's txids are pairwise distinct, and — evaluated on the state after
+blocks 0 and 1, i.e. just before the child's reveal transaction `5` (first in the indexing order of
+block 2) — the previous output `3:0` of that transaction holds an entry listing sequence number 0,
+whose inscription entry has the id `3i0` the child names: a really spent parent -/
+
+theorem pcRun : ∃ st evs, run pcCfg [pcB0, pcB1, pcB2] = .ok (st, evs) ∧ (0, 1) ∈ st.children := by
+  have hT : pcTables (run pcCfg [pcB0, pcB1, pcB2]) = some ([(0, 1)], [(0, 1)], [(1, 0)]) := by decide
+  cases hr : run pcCfg [pcB0, pcB1, pcB2] with
+  | panic s => rw [hr] at hT; cases hT
+  | err s => rw [hr] at hT; cases hT
+  | ok r =>
+    obtain ⟨st, evs⟩ := r
+    rw [hr] at hT
+    simp only [pcTables, Option.some.injEq, Prod.mk.injEq] at hT
+    exact ⟨st, evs, rfl, by rw [hT.1]; exact List.mem_cons_self⟩
+
+example : (Sched.chainTxids [pcB0, pcB1, pcB2]).Nodup := by decide
+
+def pcSpentParent : Bool :=
+  match run pcCfg [pcB0, pcB1] with
+  | .ok (st0, _) =>
+    (match AL.get st0.utxo ⟨3, 0⟩ with
+     | some e => e.ins.any (fun x => x.1 == 0)
+     | none => false) &&
+    (st0.entries[0]?.map (·.id) == some ⟨3, 0⟩) &&
+    ((Sched.blockOrder pcB2)[0]?.map (fun x => (x.1, x.2.txid)) == some (1, 5))
+  | _ => false
+
+example : pcSpentParent = true := by decide
+
+/-- the conclusion of `c07_provenance_reachable_seq`, instantiated -/
+example : ∃ st evs, run pcCfg [pcB0, pcB1, pcB2] = .ok (st, evs) ∧ ∃ (ep ec : InsEntry),
+    st.entries[0]? = some ep ∧ st.entries[1]? = some ec ∧ 0 < 1 := by
+  obtain ⟨st, evs, hr, hpc⟩ := pcRun
+  obtain ⟨ep, ec, h1, h2, h3, _⟩ := c07_provenance_reachable_seq pcCfg _ st evs (by decide) hr 0 1 hpc
+  exact ⟨st, evs, hr, ep, ec, h1, h2, h3⟩
+
+/-! why the sequence-number form needs distinct txids: block 2' repeats the txid `3` of block 1's
+reveal (impossible on Bitcoin since BIP 30).  Its envelope names `3i0` — its own id, on its own
+floating list — and `id_to_sequence_number` still maps `3i0` to the OLD inscription 0, which this
+transaction neither spends (its only input `2:0` holds no inscription) nor creates: the row
+`(0, 1)` is recorded.  The id form `c07_provenance_reachable` covers it (the parent's id `3i0` is
+an id revealed by the transaction). -/
+
+def pcB2dup : Block := { height := 2, time := 0, hash := 102, minimumRune := 0, txs := [pcCb 4, pcReveal 3 ⟨2, 0⟩ [⟨3, 0⟩]] }
+
+def pcDupNothingSpent : Bool :=
+  match run pcCfg [pcB0, pcB1] with
+  | .ok (st0, _) =>
+    (match AL.get st0.utxo ⟨2, 0⟩ with
+     | some e => e.ins.isEmpty
+     | none => false) && st0.entries.length == 1
+  | _ => false
+
+example : pcTables (run pcCfg [pcB0, pcB1, pcB2dup]) = some ([(0, 1)], [(0, 1)], [(1, 0)]) := by decide
+example : pcDupNothingSpent = true := by decide
 
 end Ord.Index.C07
